@@ -3,7 +3,7 @@
    ranges and Unicode classes that a class text denotes, in order, with its i and ^ flags, for
    every spelling of every member.  The rest of the front-end (layout, operators, binding
    strength, positions, literals) is decided by the correspondence check against the denoted AST. *)
-From PV Require Import Lib.Base Model.Front Proofs.FrontProofs.
+From PV Require Import Lib.Base Lib.Utf8 Model.Front Model.FrontLit Proofs.FrontProofs Proofs.FrontLitProofs.
 Local Open Scope Z_scope.
 
 (* every class text print_class can produce (all member spellings: raw, \], single-character
@@ -34,3 +34,18 @@ Theorem C03_escaped_hyphen_refuted :
     Some (mkClass (denote_chars items) (denote_ranges items) (denote_classes items) false false).
 Proof. exists [IChar 97 SRaw; IChar 45 SHex; IChar 122 SRaw]. vm_compute. repeat split; try reflexivity. discriminate. Qed.
 Print Assumptions C03_escaped_hyphen_refuted.
+
+(* string literals: every double- or single-quoted token the printer can produce - each element a rune written raw,
+   as a single-character escape, as \uNNNN or \UNNNNNNNN, or a byte written \xNN or \NNN - is unquoted to
+   the bytes it denotes (runes in UTF-8, byte escapes as themselves) *)
+Theorem C03_literal_reader_recovers_denoted_bytes : forall q es,
+  (q =? r_dquote)%Z || (q =? r_squote)%Z = true -> forallb (lelem_ok q) es = true ->
+  unquote (print_string q es) = Some (concat (map denote_lelem es)).
+Proof. exact unquote_print_string. Qed.
+Print Assumptions C03_literal_reader_recovers_denoted_bytes.
+
+Example C03_literal_hypotheses_inhabited :
+  let es := [LRune 97 LRaw; LRune 10 LEsc; LRune 34 LEsc; LRune 233 LU4; LRune 128512 LU8; LByteHex 255; LByteOct 7; LRune 92 LEsc]%Z in
+  forallb (lelem_ok r_dquote) es = true /\
+  unquote (print_string r_dquote es) = Some [97; 10; 34; 195; 169; 240; 159; 152; 128; 255; 7; 92]%N.
+Proof. vm_compute. split; reflexivity. Qed.
